@@ -313,10 +313,22 @@ func (w *c05) Run(t *rt.Tape, trace bool) *core.Result {
 		return res
 	}
 	inBits := c.Circ.Inputs.Size()
-	if small && (c.Circ.NumGates > 2000 || inBits > 600) || c.Circ.NumGates > 200000 {
+	if c.Circ.NumGates > 200000 {
 		res.Discard = true
-		res.Reach["discard: too large for this transport"]++
+		res.Reach["discard: too large"]++
 		return res
+	}
+	if small && (c.Circ.NumGates > 2000 || inBits > 600) {
+		// byte-wise delivery of a large session adds nothing: use a coarse transport instead
+		for _, d := range []*simnet.DirConfig{&pipe.AB, &pipe.BA} {
+			if d.Frag == simnet.FragField || d.Frag == simnet.FragMaxK && d.FragK < 1000 {
+				d.Frag = simnet.FragRandom
+			}
+			if d.Cap >= 0 && d.Cap <= 16 {
+				d.Cap = 4096
+			}
+		}
+		res.Reach["transport coarsened for a large program"]++
 	}
 	kind := []int{twopc.OTCO, twopc.OTCO, twopc.OTCOT, twopc.OTCOTMal}[t.Choose(rt.SGen, 4)]
 	if int(c.Circ.Inputs[1].Type.Bits) > 1500 && kind == twopc.OTCO {
